@@ -72,6 +72,13 @@ def compare(answer: dict, model) -> dict:
         d = first_diff(answer.get("flat_keys"), model[2], "flat_keys")
     if d is None:
         d = first_diff(impl_log(answer.get("log")), model[3], "log")
+    if d is None and len(model) > 5 and answer.get("api") is not None:
+        # the JSON value: API.to_dict() of the implementation against Model/Json.v (distribution and version are metadata of the
+        # installed package, not of the analysed one)
+        impl_json = dict(answer["api"])
+        impl_json["distribution"] = ""
+        impl_json["version"] = ""
+        d = first_diff(vlib.canon_jv_tree(vlib.jv_tree(impl_json)), vlib.canon_jv_tree(model[5]), "json")
     return {"status": "agree" if d is None else "differ", "diff": d}
 
 
@@ -199,6 +206,8 @@ def disagreement(prop: str, answer: dict, model) -> dict | None:
         pi = projection(prop, answer["api_tree"], answer.get("flat_keys"), impl_log(answer.get("log")))
         pm = projection(prop, model[1], model[2], model[3])
         if pi == pm:
+            if str(c["diff"]).startswith("json") and prop in ("C12", "C03", "C08", "C01"):
+                return {"what": "the serialisation model (API.to_dict) and the implementation's JSON value differ: " + str(c["diff"])}
             return None
         si, sm = set(map(repr, pi)), set(map(repr, pm))
         return {"what": f"analyzer model and implementation differ on the {prop} projection of the API object",
